@@ -67,18 +67,22 @@ def run(ctx: common.Ctx):
         '(guarded hook) over several limit schedules: those runs may only lose peptides, and the '
         'limits of the completing attempt must equal the Lean model of caller_reducer; fusion and '
         'circRNA inputs (one backbone each) against Spec.callBackbone / Spec.callCirc. '
-        'non-trivial = run reporting >= 1 peptide')
+        'non-trivial = run reporting >= 1 peptide. Layer G checkpoints (see C01) on the graphs of the '
+        'trypsin-noexc and lookahead-enzymes streams: no stage graph denotes a sequence outside the '
+        'definition')
     base = dict(vary=True, per_tx=(1, 7), max_size=6, window=24, witness=False, as_frac=0.3)
     res = cv_checks.explore(ctx, ctx.n(200, 4000),
-                            dict(base, exception=None, variations=['limits', 'timeout']))
+                            dict(base, exception=None, variations=['limits', 'timeout'], stages=True))
     s1 = dict(ctx.coverage['worker_stats'])
     judge(ctx, res, 'trypsin-noexc')
+    cv_checks.judge_checkpoints(ctx, res, 'extra')
     res = cv_checks.explore(ctx, ctx.n(120, 2000), dict(base, exception='auto', variations=['limits']))
     s2 = dict(ctx.coverage['worker_stats'])
     judge(ctx, res, 'trypsin-exc')
     enz = [e for e in cv_checks.enzymes_all() if cv_checks.has_lookahead(e)]
-    res = cv_checks.explore(ctx, ctx.n(100, 2000), dict(base, exception=None, enzymes=enz))
+    res = cv_checks.explore(ctx, ctx.n(100, 2000), dict(base, exception=None, enzymes=enz, stages=True))
     judge(ctx, res, 'lookahead-enzymes')
+    cv_checks.judge_checkpoints(ctx, res, 'extra')
     for kind, n in (('fusion', ctx.n(90, 1500)), ('circ', ctx.n(90, 1500))):
         bres = cv_checks.explore_backbone(ctx, kind, n, dict(exception=None))
         for r in bres:
